@@ -62,9 +62,13 @@
         (ite (or (= t 70) (= t 71) (= t 80) (= t 81)) (tabledValue M lo e1 a)
              (- 1)))))))))))))))
 ; ---- tables
-(define-fun smallTag ((T (Array Int Int)) (s Int) (k Int)) Int (select T (+ s (* 3 k))))
+; smallTag / bigTag are uninterpreted with a definitional axiom so that quantified clauses over
+; table entries have a clean E-matching trigger (patterns over (* 3 k) do not match reliably).
+(declare-fun smallTag ((Array Int Int) Int Int) Int)
+(assert (forall ((T (Array Int Int)) (s Int) (k Int)) (! (= (smallTag T s k) (select T (+ s (* 3 k)))) :pattern ((smallTag T s k)))))
 (define-fun smallOff ((T (Array Int Int)) (s Int) (k Int)) Int (be16 T (+ s (* 3 k) 1)))
-(define-fun bigTag   ((T (Array Int Int)) (s Int) (k Int)) Int (be16 T (+ s (* 6 k))))
+(declare-fun bigTag ((Array Int Int) Int Int) Int)
+(assert (forall ((T (Array Int Int)) (s Int) (k Int)) (! (= (bigTag T s k) (be16 T (+ s (* 6 k)))) :pattern ((bigTag T s k)))))
 (define-fun bigOff   ((T (Array Int Int)) (s Int) (k Int)) Int (be32 T (+ s (* 6 k) 2)))
 (define-fun listSmallEnd ((T (Array Int Int)) (s Int) (k Int)) Int (be16 T (+ s (* 2 k))))
 (define-fun listBigEnd   ((T (Array Int Int)) (s Int) (k Int)) Int (be32 T (+ s (* 4 k))))
